@@ -41,6 +41,11 @@ REQUIRED_EVENTS = {"any": ["c17.plan.checked", "c17.demand.checked", "c17.optima
                            "l2.cg.master.exact-lp.compared", "l2.bp.master.exact-lp.compared",
                            "l2.bp.node.exact-lp.compared", "l2.pricing.exact-max.compared", "l2.bp.node.branched"]}
 
+# Step budget of one solver call.  Largest need seen on the unchanged tree in 2 x 55 200 thorough + 5 x 4 682 quick
+# cases: 14.2 M (custom-from-cs with first-improving pricing before its node limit was introduced), 9.3 M elsewhere;
+# cases above 3 M are counted per stratum in the evidence (fuel.over-3M.*).
+BUDGET = 60_000_000
+
 # mechanism keys (DESIGN §4/§5) that may key a known finding of solve_bp
 MECH_KEYS = {"bp.master.infeasible-under-bounds", "bp.master.returned-infeasible-point", "bp.cg.stalled"}
 
@@ -191,7 +196,7 @@ def gen(stratum, rng, tier):
         c = _cs(W, sizes, dem, rng)
         c["bp_max_iter"] = 50
         c["bp_max_nodes"] = 60
-        c["budget"] = 40_000_000
+        c["budget"] = 100_000_000
         return c
     if stratum == "custom-cols":
         m = rng.randint(2, 4)
@@ -258,8 +263,11 @@ def gen(stratum, rng, tier):
         m = rng.randint(2, 3)
         sizes = rng.sample(range(1, W + 1), m)
         dem = [rng.randint(1, 6) for _ in sizes]
-        return {"kind": "custom-cs", "W": W, "sizes": sizes, "dem": dem, "pick": rng.choice(["best", "first"]),
-                "bp_max_iter": rng.choice([50, None])}
+        pick = rng.choice(["best", "first"])
+        # first-improving pricing over hundreds of patterns stalls at almost every node and the tree grows to
+        # thousands of nodes (still finite: 14 M steps seen); a node limit keeps the work of this stratum bounded
+        return {"kind": "custom-cs", "W": W, "sizes": sizes, "dem": dem, "pick": pick,
+                "bp_max_iter": rng.choice([50, None]), "bp_max_nodes": rng.choice([100, 300]) if pick == "first" else None}
     raise ValueError(stratum)
 
 
@@ -363,13 +371,16 @@ def _solve_all(case, dem, common_kw, universe, fits, opt, obs, label):
             shown["on_progress"] = f"stop at call {stop[0]}, interval {stop[1]}"
         if stop or case.get(f"{solver}_kw"):
             obs.event("c17.config.cut-off-run")
-        res = call(obs, fn, list(dem), what=f"solve_{solver}", budget=case.get("budget", 12_000_000), **ckw)
+        res = call(obs, fn, list(dem), what=f"solve_{solver}", budget=case.get("budget", BUDGET), **ckw)
         if not is_crash(res):
             _judge(res, solver, dem, fits, opt, obs, f"solve_{solver} {label} {shown or ''}")
             it = getattr(res, "iterations", 0) or 0
             if solver == "bp" and it:
                 obs.event("c17.bp.branched-run")
         anomalies += _drain(obs, solver, trace)
+        if obs.fuel_max > 3_000_000 and not obs.events.get("fuel.counted"):
+            obs.event("fuel.counted")
+            obs.event(f"fuel.over-3M.{getattr(obs, 'stratum', '?')}")
         if len(obs.violations) > nv and trace:
             c, d = obs.violations[-1]
             obs.violations[-1] = (c, (d + " || L2: " + " | ".join(trace))[:2000])
